@@ -7,15 +7,20 @@
      PROVED   of the mirror model MapSched (map_node.cpp's child schedule queue), for every sequence of
               ticks, child schedules, erases, key removals / additions / slot reuse and child behaviours:
               map_no_child_wake_lost, owner_cannot_skip_child_time, due_child_is_in_evaluation_set.
-     PROVED, PARTIAL  refinement of the per-slot mirror MapEval (remove / create / evaluate one entry) to
-              MapSpec.key_step: refines_remove_partial, refines_create_partial, refines_eval_partial.
-              FULL STATEMENT (not proved): for every history, the trace of the slot-store evaluator driven by
-              MapSched's evaluation sets equals MapSpec's trace.  Missing: the lifting from one entry to the
-              slot store (the key set's slot discipline) and the identification of MapSched's [e_next] with
-              the instance's [b_next].
+     PROVED   refinement of the WHOLE-NODE mirror MapNode (slot store of MapEval entries + MapSched scheduling,
+              the evaluation set taken from MapSched, not assumed) to MapSpec, for every body family whose due
+              wake-ups are consumed by a step, every key universe, every history and every environment (slot
+              allocation by the key set, sparse candidate hints) respecting the engine's and the key set's
+              contracts: map_cycle_refines_spec (one cycle, per key), map_link_preserved, map_refines_spec (the
+              whole log, hence the output dictionary stream).  No capacity restriction: slots are unbounded
+              naturals and growth is part of the model.  Per-entry lemmas refines_*_partial are its ingredients.
+              Cycles of the owning graph that pass the map node by (its slot does not hold the time and no input
+              ticked) are part of the run ([node_idle]); that nothing is due in them is derived from
+              map_no_child_wake_lost's invariant.  NOT covered by the mirror: key-set erase callbacks (invisible:
+              a stopped and an absent entry mean the same), pause/resume, key-source replacement.
      TESTED   (not proved): that the real map node refines MapSpec - by the differential check of
               cxx/map_driver.cpp against MapSpec.run_map and by the Python oracle of gen/map.py. *)
-Require Import Base MapSpec MapFacts MapSched MapSchedFacts MapEval MapEvalFacts.
+Require Import Base MapSpec MapFacts MapSched MapSchedFacts MapEval MapEvalFacts MapNode MapNodeFacts.
 From Coq Require Import ZifyBool.
 
 (* ---------------------------------------------------------------- the specification *)
@@ -138,6 +143,53 @@ Theorem refines_eval_partial : forall (S : Type) (B : body S) t bc (e : sentry S
 Proof. exact @MapEvalFacts.refines_eval_partial. Qed.
 Print Assumptions refines_eval_partial.
 
+(* ---------------------------------------------------------------- refinement of the whole node *)
+(* One cycle of the node mirror - tick, input notifications of the children whose arguments ticked, then
+   map_evaluate_impl with reconciliation, candidate set, queue drains, evaluation loop and re-arm - does to every
+   key exactly what the specification's key_step does, the evaluation set being MapSched's own. *)
+Theorem map_cycle_refines_spec : forall (S : Type) (B : Z -> body S) (keys : list Z) (n : nstate S) (c : cyc) (x : env),
+  Link B keys n -> step_ok keys n c x ->
+  forall j, In j keys ->
+  (nabs (node_cycle B keys n c x) j, c_ev B keys n c x j) =
+  key_step (B j) (c_t c) (c_bc c) j (nabs n j) (ops_on j (c_ops c)).
+Proof. exact @MapNodeFacts.key_refines. Qed.
+Print Assumptions map_cycle_refines_spec.
+
+(* The link invariant (key set <-> slot store bijection; every started entry has a started scheduling entry
+   whose time is the pending wake-up of the child's state, e_next = b_next; MapSched's invariant) is
+   re-established by every cycle. *)
+Theorem map_link_preserved : forall (S : Type) (B : Z -> body S) (keys : list Z),
+  (forall j s bi, bi_now bi < MAX_ET ->
+     match b_next (B j) (fst (b_step (B j) s bi)) with Some w => bi_now bi < w /\ w < MAX_DT | None => True end) ->
+  forall (n : nstate S) (c : cyc) (x : env),
+  Link B keys n -> step_ok keys n c x -> Link B keys (node_cycle B keys n c x).
+Proof. exact @MapNodeFacts.link_cycle. Qed.
+Print Assumptions map_link_preserved.
+
+(* map_refines_spec: over any history, the node mirror's log - per cycle the time and every key's start, stop,
+   removal, output and error events, from which the output dictionary stream is printed - equals the
+   specification's. *)
+Theorem map_refines_spec : forall (S : Type) (B : Z -> body S) (keys : list Z),
+  (forall j s bi, bi_now bi < MAX_ET ->
+     match b_next (B j) (fst (b_step (B j) s bi)) with Some w => bi_now bi < w /\ w < MAX_DT | None => True end) ->
+  forall (ndict : nat) (h : list (cyc * env)),
+  run_ok B keys (ninit ndict) h ->
+  n_log (node_run B keys (ninit ndict) h) = r_log (run B (start_state ndict keys) (map fst h)) /\
+  Link B keys (node_run B keys (ninit ndict) h).
+Proof. exact @MapNodeFacts.node_refines_spec. Qed.
+Print Assumptions map_refines_spec.
+
+(* ... and so are the printed observations: the output dictionary delta and value per tick, and the lifecycle lines. *)
+Corollary map_output_stream_refines_spec : forall (S : Type) (B : Z -> body S) (keys : list Z),
+  (forall j s bi, bi_now bi < MAX_ET ->
+     match b_next (B j) (fst (b_step (B j) s bi)) with Some w => bi_now bi < w /\ w < MAX_DT | None => True end) ->
+  forall (ndict : nat) (h : list (cyc * env)) (usekey counts : bool),
+  run_ok B keys (ninit ndict) h ->
+  print_log usekey counts (rev (n_log (node_run B keys (ninit ndict) h))) [] [] =
+  print_log usekey counts (rev (r_log (run B (start_state ndict keys) (map fst h)))) [] [].
+Proof. exact @MapNodeFacts.node_output_stream. Qed.
+Print Assumptions map_output_stream_refines_spec.
+
 (* ---------------------------------------------------------------- non-vacuity *)
 (* A concrete history over the driver's vocabulary (acc body): key 5 is added, updated, removed, re-added;
    key 6 lives alongside.  The re-added key restarts from 0 (3, not 14); key 6 is unaffected. *)
@@ -162,6 +214,49 @@ Example c10_refine_nontrivial :
   wake_due B (se_inst e) 4 = true /\
   snd (slot_eval B 4 (new_vals 0 [Some 10] [] ++ []) false true e) = mkEv false false false (Some 510) false.
 Proof. vm_compute. split; reflexivity. Qed.
+
+(* The hypotheses of map_refines_spec are satisfiable and the conclusion is not trivial: a body with a real
+   self-wake-up (tbody_wake proves the hypothesis on bodies), two keys in two slots, a cycle that passes the
+   node by (t = 3), a wake-up cycle with no input (t = 4: the node runs only because its slot holds), a key
+   removal, and the re-use of its slot by the re-added key. *)
+Definition c10_node_hist : list (cyc * env) :=
+  let x := mkEnv (fun j => if j =? 5 then 0%nat else 1%nat) [] false false in
+  [(mkCyc 1 [] [(0%nat, 1, 5, 10)], x);
+   (mkCyc 2 [] [(0%nat, 1, 6, 20)], x);
+   (mkCyc 3 [] [], x);
+   (mkCyc 4 [] [], x);
+   (mkCyc 5 [] [(0%nat, 2, 5, 0)], x);
+   (mkCyc 6 [] [(0%nat, 1, 5, 7)], x);
+   (mkCyc 9 [] [], x)].
+
+Example c10_node_nontrivial :
+  (forall j s bi, bi_now bi < MAX_ET ->
+     match b_next ((fun _ : Z => tbody) j) (fst (b_step ((fun _ : Z => tbody) j) s bi)) with
+     | Some w => bi_now bi < w /\ w < MAX_DT | None => True end) /\
+  run_ok (fun _ => tbody) [5; 6] (ninit 1) c10_node_hist /\
+  map (fun te => (fst (fst te), map (fun p => (fst p, ev_out (snd p))) (snd te)))
+      (rev (n_log (node_run (fun _ => tbody) [5; 6] (ninit 1) c10_node_hist)))
+  = [(1, [(5, None); (6, None)]); (2, [(5, None); (6, None)]); (3, [(5, None); (6, None)]); (4, [(5, Some 510); (6, None)]);
+     (5, [(5, None); (6, Some 520)]); (6, [(5, None); (6, None)]); (9, [(5, Some 507); (6, None)])].
+Proof.
+  split; [exact MapNodeFacts.tbody_wake|]. split; [|vm_compute; reflexivity].
+  unfold c10_node_hist. cbn [run_ok fst snd].
+  repeat match goal with
+         | |- _ /\ _ => split
+         | |- step_ok _ _ _ _ => unfold step_ok; cbn [c_t x_alloc]
+         | |- tick_ok _ _ = true => vm_compute; reflexivity
+         | |- _ < MAX_ET => vm_compute; reflexivity
+         | |- True => exact I
+         | |- forall j, In j _ -> _ = None -> match _ with _ => _ end =>
+             let H := fresh in let K := fresh in intros ? H K; cbn [In] in H;
+             destruct H as [H|[H|[]]]; subst; vm_compute in K |- *; try discriminate K; try exact I; try reflexivity
+         | |- forall j j', In j _ -> In j' _ -> _ =>
+             let H := fresh in let H' := fresh in let K := fresh in let K' := fresh in let E := fresh in
+             intros ? ? H H' K K' E; cbn [In] in H, H';
+             destruct H as [H|[H|[]]]; destruct H' as [H'|[H'|[]]]; subst;
+             vm_compute in K, K', E; try reflexivity; try discriminate
+         end.
+Qed.
 
 (* A concrete run of the scheduling mirror with a timer child, an input-driven sibling, a key removal and
    slot reuse: the hypotheses of the three mechanism theorems are met by a reachable state. *)
